@@ -126,6 +126,7 @@ func attacker() {
 		_, att.ed, _ = ed25519.GenerateKey(crand.Reader)
 		tpl := &x509.Certificate{SerialNumber: big.NewInt(1), Subject: pkix.Name{CommonName: "attacker"}, NotBefore: time.Now().Add(-time.Hour), NotAfter: time.Now().Add(24 * time.Hour)}
 		att.cert, _ = x509.CreateCertificate(crand.Reader, tpl, tpl, &att.p256.PublicKey, att.p256)
+		att.fams = buildFamilies()
 	})
 }
 
